@@ -41,6 +41,11 @@ class AbstractBlock(CborArray):
         CRC16 = 1
         CRC32 = 2
 
+    def do_dissect_payload(self, s):
+        ''' All items of a block array are fields of the block. '''
+        if s:
+            raise ValueError('Block array has {} extra items'.format(len(s)))
+
     # Map from CRC type to algorithm
     CRC_DEFN = {
         CrcType.CRC16: {  # BPv7 CRC-16 X.25
